@@ -1047,6 +1047,14 @@ def c19(res: Result):
         ops = [FULL_BFS, {"op": "allseeds"}, {"op": "allsets"}] if i % 2 == 0 else [{"op": "build"}, {"op": "allsets"}]
         tasks.append({"kind": "same", "tid": f"x{i}", "tt": tt, "ops": ops, "prelude": [],
                       "hashseeds": ["1", "2", "3", "4", "5"] if q else ["1", "2", "3", "4", "5", "6", "7", "random"]})
+        if len(tt) >= 4:
+            # the same network with variable names whose alphabetical order interleaves the modules (A, D | B, C): orders derived
+            # from sets of names then differ between hash seeds if anything depends on them
+            base = bn.names_for(len(tt))
+            inter = [base[(j // 2) if j % 2 == 0 else len(tt) - 1 - (j // 2)] for j in range(len(tt))]
+            tasks.append({"kind": "same", "tid": f"y{i}", "tt": tt, "names": inter, "prelude": [],
+                          "ops": [{"op": "build"}, {"op": "allsets"}] if i % 2 == 0 else [{"op": "block", "maa": False, "optsrc": True, "exact": False, "size": -1}, {"op": "allseeds"}],
+                          "hashseeds": ["1", "2", "3", "4", "5"] if q else ["1", "2", "3", "4", "5", "6", "7", "random"]})
     res.cov["rule"] = ("The same call history (a complete strategy, seeds and sets for all nodes, a control call) is executed in fresh interpreters with "
                        "PYTHONHASHSEED 0 / 1 / 2 / random, twice in one process, and after unrelated library activity (other diagrams built, symbolic "
                        "fallback, skipping); Twin.tla requires every logged item to be identical: ids, spaces, edges, motif order, depths, candidates, "
